@@ -19,7 +19,6 @@ wavelength, minimum width, buffer, permitted cell numbers); nothing is read
 from the ``info`` string.  Where the documentation is silent or ambiguous the
 oracle demands *less* (listed in ``run`` as assumptions).
 """
-import itertools
 import warnings
 
 import numpy as np
@@ -322,7 +321,8 @@ def oracle_1d(p, x0, h, msgs):
         if ss is None:
             k = int(np.argmin(abs(nodes - c))) if coe else \
                 int(np.argmin(abs(0.5*(nodes[1:] + nodes[:-1]) - c)))
-            wc = h[[k-1, k]] if coe and 0 < k < h.size else h[[min(k, h.size-1)]]
+            wc = h[[k-1, k]] if coe and 0 < k < h.size else \
+                h[[min(k, h.size-1)]]
             if abs(h.min() - dmin) > RTOL*dmin or \
                     np.any(abs(wc - dmin) > RTOL*dmin):
                 bad('min-width-differs',
@@ -559,13 +559,24 @@ def jsonish(x):
     return x
 
 
-def oaw_lattice(depth):
+def oaw_lattice(depth, depth_all_pm=None):
+    """All configurations with <= depth deviations; the 18 property/mapping
+    values are all used up to ``depth_all_pm`` deviations, four of them (one
+    per length, three mappings) in the deeper levels."""
     dom = {k: list(v) + OAW_LATTICE_EXTRA.get(k, []) for k, v in OAW.items()}
+    dall = depth if depth_all_pm is None else min(depth, depth_all_pm)
     out = []
-    for cfg, dev in space.lattice(dom, depth):
-        cfg['dev'] = [list(d) for d in dev]
+    for cfg, dev in space.lattice(dom, dall):
+        cfg['dev'] = [[n, dom[n][i]] for n, i in dev]
         cfg['alt_call'] = len(dev) <= 2
         out.append(cfg)
+    if dall < depth:
+        dom['pm'] = [OAW['pm'][0]] + PM3
+        for cfg, dev in space.lattice(dom, depth):
+            if len(dev) > dall:
+                cfg['dev'] = [[n, dom[n][i]] for n, i in dev]
+                cfg['alt_call'] = False
+                out.append(cfg)
     return out
 
 
@@ -583,7 +594,7 @@ PM3 = [['L1', 'Resistivity'], ['L2', 'LgConductivity'], ['L3', 'Resistivity']]
 
 
 def oaw_products(tier):
-    """name -> cases of the full sub-products."""
+    """name -> cases of the full sub-products (others at their default)."""
     prods = {}
     if tier == 'quick':
         prods['domain'] = oaw_product(
@@ -591,26 +602,27 @@ def oaw_products(tier):
              'seasurface', 'center_on_edge'], pm=PM3)
         prods['buffer'] = oaw_product(
             ['frequency', 'pm', 'lambda_factor', 'lambda_from_center',
-             'max_buffer', 'cell_numbers'],
-            domain=OAW['domain'][:2], stretching=OAW['stretching'][:2])
+             'max_buffer', 'cell_numbers'], domain=OAW['domain'][:2])
         prods['width'] = oaw_product(
-            ['frequency', 'stretching', 'min_width_limits', 'min_width_pps',
+            ['frequency', 'stretching', 'min_width_limits',
              'center_on_edge', 'seasurface', 'cell_numbers'],
-            vector=[None, 'irr'])
+            vector=[None, 'irr'], min_width_pps=[5])
     else:
         prods['domain'] = oaw_product(
             ['frequency', 'center', 'domain', 'distance', 'vector',
-             'stretching', 'min_width_limits', 'center_on_edge', 'seasurface',
+             'min_width_limits', 'center_on_edge', 'seasurface',
              'lambda_from_center', 'cell_numbers'], pm=PM3)
+        prods['stretch'] = oaw_product(
+            ['frequency', 'center', 'domain', 'vector', 'stretching',
+             'center_on_edge', 'seasurface'], pm=PM3[1:])
         prods['buffer'] = oaw_product(
             ['frequency', 'pm', 'center', 'domain', 'stretching',
              'lambda_factor', 'lambda_from_center', 'max_buffer',
-             'cell_numbers', 'center_on_edge'],
-            seasurface=[None, 'far'])
+             'cell_numbers'])
         prods['width'] = oaw_product(
             ['frequency', 'stretching', 'min_width_limits', 'min_width_pps',
              'center_on_edge', 'seasurface', 'cell_numbers', 'vector',
-             'center', 'max_buffer'], pm=PM3[1:])
+             'center'])
     return prods
 
 
@@ -629,15 +641,15 @@ CM = {
     'domain': ['tuple', 'dict', 'single', 'partial-dict', 'none'],
     'distance': ['none', 'single', 'tuple', 'dict', 'partial'],
     'vector': ['none', 'array', 'tuple', 'dict', 'partial'],
-    'stretching': ['absent', 'single', 'tuple', 'dict'],
+    'stretching': ['absent', 'single', 'tuple', 'dict', 'tight-z'],
     'min_width_limits': ['absent', 'float', 'pair', 'tuple', 'dict'],
     'min_width_pps': ['absent', 'int', 'float', 'tuple', 'dict'],
     'center_on_edge': ['true', 'false', 'tuple', 'dict', 'absent'],
     'seasurface': ['none', 'far', 'near'],
     'frequency': [1.0, 77.0, -3.0],
-    'mapping': ['Resistivity', 'LgConductivity', 'absent'],
+    'mapping': ['Resistivity', 'LgConductivity', 'absent', 'LnResistivity-Map'],
     'buffer': ['default', 'half-capped', 'from-center'],
-    'cell_numbers': ['default', 'short'],
+    'cell_numbers': ['default', 'short', 'tiny'],
 }
 
 
@@ -660,8 +672,12 @@ def build_cm(c):
     per = [{'frequency': c['frequency'], 'center': CENTER3[d]}
            for d in range(3)]
 
-    mapping = 'Resistivity' if c['mapping'] == 'absent' else c['mapping']
-    if c['mapping'] != 'absent':
+    mapping = 'Resistivity' if c['mapping'] == 'absent' else \
+        c['mapping'].replace('-Map', '')
+    if c['mapping'].endswith('-Map'):      # a Map instance instead of a name
+        import emg3d
+        kw['mapping'] = getattr(emg3d.maps, 'Map'+mapping)()
+    elif c['mapping'] != 'absent':
         kw['mapping'] = mapping
     ln = c['properties'].rstrip('f')
     prop = to_mapping(PROPS[ln], mapping).tolist()
@@ -710,7 +726,11 @@ def build_cm(c):
             np.asarray(vals[d]).tolist()
 
     # per-direction keyword arguments
-    arg, vals = _fmt3(c['stretching'], STR3, [1.05, 1.3])
+    if c['stretching'] == 'tight-z':     # z alone (most likely) fails
+        arg = (STR3[0], STR3[1], [1.0, 1.01])
+        vals = list(arg)
+    else:
+        arg, vals = _fmt3(c['stretching'], STR3, [1.05, 1.3])
     if arg is not None:
         kw['stretching'] = arg
     for d in range(3):
@@ -771,6 +791,8 @@ def build_cm(c):
         extra = {}
     if c['cell_numbers'] == 'short':
         extra['cell_numbers'] = [10, 20, 50, 100, 200]
+    elif c['cell_numbers'] == 'tiny':
+        extra['cell_numbers'] = [8, 12]
     kw.update(extra)
     for d in range(3):
         per[d].update(extra)
@@ -854,7 +876,7 @@ def cm_lattice(depth):
 EGO_SURVEYS = ('line', 'spread', 'short')
 EGO_MODELS = ('iso-cond', 'tri-lgres')
 EGO_OPTS = ('empty', 'passthrough', 'vector-xy', 'provided', 'distance',
-            'seasurface')
+            'seasurface', 'tiny')
 
 
 def build_survey(name):
@@ -925,6 +947,8 @@ def ego_opts(name, model):
     if name == 'seasurface':
         return {'seasurface': 0.0, 'center_on_edge': False,
                 'vector': (None, None, model.grid.nodes_z[:-1])}
+    if name == 'tiny':
+        return {'cell_numbers': [8, 12], 'center_on_edge': True}
     raise ValueError(name)
 
 
@@ -1142,8 +1166,8 @@ def route_gopts(g):
 
 # ------------------------------------------------------------------- driver
 def prepare(ctx):
-    import emg3d                  # noqa - imported once, inherited by workers
-    from emg3d import meshes      # noqa
+    import emg3d.meshes           # imported once, inherited by the workers
+    return emg3d.meshes
 
 
 def run(ctx):
@@ -1167,36 +1191,48 @@ def run(ctx):
         "tolerances: 1e-6 m for node positions / coverage, 1e-9 relative for "
         "width ratios and the minimum width")
     q = ctx.quick
-    cap = ctx.budget or (80 if q else 1100)
+    total = ctx.budget or (85 if q else 880)
+    t_start = ctx.elapsed()
+
+    def cap(share):
+        """Time cap: cumulative share of the budget minus what is used."""
+        return max(5.0, share*total - (ctx.elapsed() - t_start))
 
     if ctx.wants('oaw-lattice'):
         depth = 3 if q else 4
-        cs = oaw_lattice(depth)
+        cs = oaw_lattice(depth, 2 if q else None)
         ctx.explore('oaw-lattice', FN_OAW, cs, engine='E1',
                     rule=f'origin_and_widths: all configurations with <= '
                          f'{depth} non-default parameters out of 15 '
                          f'(alphabets of DESIGN 3/C16 plus lattice-only '
-                         f'extras); non-trivial = mesh returned or '
-                         f'RuntimeError',
-                    time_cap=cap)
-    for name, cs in oaw_products(ctx.tier).items():
+                         f'extras' + ('; 4 of the 18 property/mapping values '
+                                      'at depth 3' if q else '') +
+                         '); non-trivial = mesh returned or RuntimeError',
+                    time_cap=cap(0.40 if q else 0.30))
+    prods = oaw_products(ctx.tier)
+    shares = {'domain': 0.46, 'buffer': 0.58, 'width': 0.78} if q else \
+        {'domain': 0.38, 'stretch': 0.46, 'buffer': 0.62, 'width': 0.78}
+    for name, cs in prods.items():
         if ctx.wants('oaw-product-'+name):
             ctx.explore('oaw-product-'+name, FN_OAW, cs, engine='E1',
                         rule=f'origin_and_widths: full product of the '
-                             f'{name}-related parameters, others default',
-                        time_cap=cap)
+                             f'{name}-related parameters ('
+                             f'{len(cs)} cases), others default',
+                        time_cap=cap(shares[name]))
     if ctx.wants('construct-mesh'):
         depth = 2 if q else 3
         cs = cm_lattice(depth)
         ctx.explore('construct-mesh', FN_CM, cs, engine='E1',
                     rule=f'construct_mesh: <= {depth} deviations over the '
                          f'per-direction input formats of 13 arguments; every '
-                         f'direction judged with checker-side routing',
-                    time_cap=cap)
+                         f'direction judged with checker-side routing and '
+                         f'compared with origin_and_widths called directly',
+                    time_cap=cap(0.96))
     if ctx.wants('estimate-opts'):
-        cs = [{'survey': s, 'model': m, 'opts': o}
-              for o in EGO_OPTS for s in EGO_SURVEYS for m in EGO_MODELS]
+        cs = [{'survey': s_, 'model': m_, 'opts': o}
+              for o in EGO_OPTS for s_ in EGO_SURVEYS for m_ in EGO_MODELS]
         ctx.explore('estimate-opts', FN_EGO, cs, engine='E1',
-                    rule='estimate_gridding_opts: 3 surveys x 2 models x 6 '
-                         'option sets, then construct_mesh(**opts)',
-                    time_cap=cap)
+                    rule=f'estimate_gridding_opts: 3 surveys x 2 models x '
+                         f'{len(EGO_OPTS)} option sets, then '
+                         f'construct_mesh(**opts)',
+                    time_cap=cap(1.0))
